@@ -134,8 +134,13 @@ OuterLoop:
 					if err != nil {
 						return "", err
 					}
+					// Lua strings are made of bytes but Go counts characters
+					// (decoding the string as UTF-8) for the precision and the
+					// width.
+					s = formatString(s, flags, length, prec, foundDot)
 					tmpMem += t.RequireBytes(len(s))
-					arg = string(s)
+					arg = s
+					formatted = true
 					break ArgLoop
 				case 'q':
 					// quote, only for literals I think
@@ -297,6 +302,23 @@ func quote(v rt.Value) (string, bool) {
 // formatFlags records the flags found in a directive of a format string.
 type formatFlags struct {
 	minus, plus, space, alt, zero bool
+}
+
+// formatString formats s as C's printf would for a directive %s with the given
+// flags, width and precision (which applies only if hasPrec is true): both
+// width and precision are numbers of bytes.
+func formatString(s string, flags formatFlags, width, prec int, hasPrec bool) string {
+	if hasPrec && prec < len(s) {
+		s = s[:prec]
+	}
+	if padding := width - len(s); padding > 0 {
+		if flags.minus {
+			s += strings.Repeat(" ", padding)
+		} else {
+			s = strings.Repeat(" ", padding) + s
+		}
+	}
+	return s
 }
 
 // formatInt formats n as C's printf would for the directive made of the given
